@@ -471,7 +471,7 @@ def gen_module(rng, dialect, width, col, max_depth=3, plain_names_only=False):
         for _ in range(n):
             if used and rng.random() < 0.15:
                 name, ncls, nrep = rng.choice(used)
-                if rng.random() < 0.25 and name.swapcase() != name:
+                if rng.random() < 0.25 and name.swapcase() != name and name.isascii():
                     # the same name in another letter case: distinct names
                     # to Python, one and the same once ODL/PDS3 upper-case it
                     name = name.swapcase()
